@@ -14,3 +14,15 @@ try:
         pass
 except ImportError:
     pass
+
+
+def structural():
+    """C02's per-parse claims presuppose that a parse depends on (tokens, format, mode) only: the frame obligations
+    of the parser object (see C05_structural) are part of this check as well"""
+    from .C05_structural import structural as s5
+    out = []
+    for o in s5():
+        o = dict(o)
+        o["name"] = o["name"].replace("C05.", "C02.", 1)
+        out.append(o)
+    return out
